@@ -105,5 +105,11 @@ CHECKS = {
         "text": "TLC checks the abstract handler (transmit-if-absent cache, position-derived placement ids, erase by id pair, eviction on error) against the terminal store over all histories of 5 draw/erase/error events on 2 images and 3 positions incl. the origin. Real histories (image pool: 1x1, empty, cropped/strided/transposed views, payloads of one, exactly one, exactly two and three 4096-byte chunks; positions incl. (0,0) and the 65535 corners; error responses with and without placement id) are judged command by command: chunk sizes and continuation flags, f/s/v/i keys, decoded payload = the image's RGBA pixels in row-major order, no retransmission while the terminal holds the image, every put refers to a held image, and the placements the terminal holds equal those drawn and not erased.",
         "note": "Known finding: the two bottom-right corner positions share a placement id (pigeonhole on 32-bit ids).",
     },
+    "C12": {
+        "level": "translation_validation",
+        "technique": "raw sixel bytes of the real handler interpreted by a TLA+ reference sixel machine (raster, registers, repeat, band/CR) and compared with the source pixels",
+        "text": "Images (1..24 x 6..20 and wide ones up to 710 columns with long runs; 1..1000 colours distinct at sixel's 0-100 resolution incl. exactly 255/256/257; transparent pixels over a configured background; two equal-size crops of one parent plus the parent on one handler; every image drawn twice) go through the real SixelImageHandler. TLC runs the reference interpreter over the bytes and requires one well-formed sequence, declared size (width, 6*floor(h/6)), every raster pixel painted and none outside, every used register defined with channels <= 100, pixel-for-pixel equality with the source at 0-100 resolution when it has <= 256 distinct colours, and identical bytes for the repeated draw.",
+        "note": "Colour fidelity beyond 256 colours is C13's subject; only alpha 0/255 generated.",
+    },
 }
 
